@@ -21,7 +21,7 @@ ASSUMPTIONS = [
     "single-threaded: the bytes read right after an answer are the bytes the answer was about",
 ]
 MONITORS = "every (meta, hash) obtained through the state cache or carried over by update() compared with hashlib at the same instant"
-REQUIRED_COUNTERS = ["index_md5_on_an_already_hashed_index", "incremental_checkouts", "checkouts_with_agreeing_prompt_asked", "re_adds_into_a_verifying_store", "legacy_store_checkouts", "failed_adds_over_an_existing_path", "failed_create_index_checkouts_with_meta_update", "batched_lookups_of_legacy_rows", "alias_path_queries", "index_update_with_swap_during_md5", "index_md5_on_reused_index", "memfs_batched_queries", "failed_link_checkouts", "failed_create_index_checkouts", "large_file_cases", "index_update_with_reloaded_old_index", "racing_writer_queries", "symlinked_files", "answers_checked", "state_hits_checked", "mutations", "get_vs_get_many_compared", "staging_listings_checked", "index_md5_checked",
+REQUIRED_COUNTERS = ["field_shift_rewrites", "index_md5_on_an_already_hashed_index", "incremental_checkouts", "checkouts_with_agreeing_prompt_asked", "re_adds_into_a_verifying_store", "legacy_store_checkouts", "failed_adds_over_an_existing_path", "failed_create_index_checkouts_with_meta_update", "batched_lookups_of_legacy_rows", "alias_path_queries", "index_update_with_swap_during_md5", "index_md5_on_reused_index", "memfs_batched_queries", "failed_link_checkouts", "failed_create_index_checkouts", "large_file_cases", "index_update_with_reloaded_old_index", "racing_writer_queries", "symlinked_files", "answers_checked", "state_hits_checked", "mutations", "get_vs_get_many_compared", "staging_listings_checked", "index_md5_checked",
                      "index_update_carried_checked", "injected_rows", "memfs_queries", "batch_boundary_cases", "mutations_between_queries", "ext4_cases"]
 
 ALGOS = ["md5", "sha256", "md5-dos2unix", "blake3"]
@@ -42,6 +42,7 @@ def run_shard(ctx):
     memfs = MemoryFileSystem()
 
     seen_tokens = {}
+    shift_clock = [0]
 
     def mutate(rng, path, data, kind):
         """-> new bytes or None (deleted)"""
@@ -276,12 +277,47 @@ def run_shard(ctx):
                         else:
                             cur[p] = new
                     continue
-                q = rng.choice(["hash_file", "hash_file", "get", "get_many", "_get_hashes", "build", "index_md5", "index_update", "inject", "memfs", "racing-writer", "checkout-failed-link", "index-checkout-failed-create", "alias-through-dir-symlink", "add-failed-over-existing-path", "legacy-store-checkout", "re-add-into-verifying-store", "checkout-with-agreeing-prompt", "index-md5-twice", "incremental-checkout"])
+                q = rng.choice(["hash_file", "hash_file", "field-shift", "get", "get_many", "_get_hashes", "build", "index_md5", "index_update", "inject", "memfs", "racing-writer", "checkout-failed-link", "index-checkout-failed-create", "alias-through-dir-symlink", "add-failed-over-existing-path", "legacy-store-checkout", "re-add-into-verifying-store", "checkout-with-agreeing-prompt", "index-md5-twice", "incremental-checkout"])
                 if batch and q in ("build", "index_md5", "index_update"):
                     q = "get_many"
                 hist.append(["query", q, ""])
                 res.evaluated()
-                if q == "hash_file" and paths:
+                if q == "field-shift" and paths and not all(os.path.islink(x) for x in paths):
+                    # two states of one inode whose (mtime, size) differ in BOTH fields, but whose printed digits run into one another
+                    # the same way ("...0.5"+"6255" / "...0.5625"+"5"; "...0.25"+"781253" / "...0.2578125"+"3"): every field changed,
+                    # so the remembered hash must not be served
+                    p = rng.choice([x for x in paths if not os.path.islink(x)])
+                    frac_a, frac_b, dig = rng.choice([(500_000_000, 562_500_000, "625"), (250_000_000, 257_812_500, "78125"), (500_000_000, 531_250_000, "3125")])
+                    s_b = rng.randrange(1, 10)
+                    s_a = int(dig + str(s_b))
+                    shift_clock[0] += 1
+                    t = (int(os.stat(p).st_mtime) + 10 + shift_clock[0]) * 10**9
+                    first = rng.randbytes(s_a)
+                    with open(p, "wb") as f:
+                        f.write(first)
+                    os.utime(p, ns=(t, t + frac_a))
+                    cur[p] = first
+                    seen_tokens.setdefault(p, set()).add(stat_token(p))
+                    hist.append(["mutate", "field-shift/prepare", os.path.basename(p)])
+                    name = rng.choice(ALGOS)
+                    _m, hi = hash_file(p, fs, name, state=state)
+                    note_query([p])
+                    verify(p, name, hi.value, "hash_file")
+                    os.truncate(p, s_b)
+                    os.utime(p, ns=(t, t + frac_b))
+                    cur[p] = first[:s_b]
+                    seen_tokens[p].add(stat_token(p))
+                    mcount[p] = mcount.get(p, 0) + 2
+                    res.count("mutations", 2)
+                    res.count("field_shift_rewrites")
+                    hist.append(["mutate", "field-shift", os.path.basename(p)])
+                    _m, hi = hash_file(p, fs, name, state=state)
+                    note_query([p])
+                    verify(p, name, hi.value, "hash_file")
+                    _m, hi = state.get(p, fs)
+                    if hi is not None:
+                        verify(p, hi.name, hi.value, "State.get", hit=True)
+                elif q == "hash_file" and paths:
                     for p in rng.sample(paths, min(len(paths), 4)):
                         name = rng.choice(ALGOS)
                         info = _localfs_info(p) if rng.random() < 0.5 else None
